@@ -567,7 +567,8 @@ func (p *Prog) shiftOf(e ast.Expr) (int64, bool) {
 		}
 		return 0, false
 	}
-	if _, ok := e.(*ast.Ident); ok {
+	switch e.(type) {
+	case *ast.Ident, *ast.SelectorExpr:
 		return 0, true
 	}
 	return 0, false
